@@ -22,6 +22,8 @@
  *   T<c>:<k>        type-mismatch / bad-key attribute calls
  *   X<c>:<o>        kdump_get_addrxlat -> obj[o] holds ctx+sys references
  *   I<c>            iterate over all attributes
+ *   Z<m>            order of the final teardown (0..5: objects before / after the contexts,
+ *                   contexts in ascending / descending order, objects both before and after)
  *   Y<c>:<p>        set file.mmap_policy (0 never, 1 always, 2 try)
  *   K<c>:<addr>     read a page that is known to be good: must succeed (a cache entry
  *                   left pinned by an earlier failure shows up here as KDUMP_ERR_BUSY)
@@ -129,6 +131,7 @@ static void drop_obj(int o)
 	obj[o].kind = 0;
 }
 
+static int teardown_mode;
 static void do_op(char *op)
 {
 	char *f[6]; int nf = 0; char *save = NULL, *p;
@@ -137,6 +140,7 @@ static void do_op(char *op)
 	kdump_status st = KDUMP_OK;
 	for (p = strtok_r(op + 1, ":", &save); p && nf < 6; p = strtok_r(NULL, ":", &save)) f[nf++] = p;
 	c = nf > 0 ? atoi(f[0]) % NCTX : 0;
+	if (kind == 'Z') { teardown_mode = nf > 0 ? atoi(f[0]) : 0; return; }
 	if (kind != 'N' && kind != 'B' && !ctx[c]) return;         /* context not alive: no-op */
 	switch (kind) {
 	case 'N':
@@ -332,8 +336,8 @@ static void run_seq(char *line)
 	}
 	/* drop everything that is still alive: objects first for even cases, contexts first otherwise */
 	if (!problem[0]) {
-		if (k % 2 == 0) for (i = 0; i < NOBJ; ++i) if (obj[i].kind) drop_obj(i);
-		for (i = 0; i < NCTX; ++i) { int j = (k % 3) ? i : NCTX - 1 - i; if (ctx[j]) { LIB(kdump_free(ctx[j])); ctx[j] = NULL; } }
+		if (teardown_mode % 2 == 0) for (i = 0; i < NOBJ; ++i) if (obj[i].kind) drop_obj(i);
+		for (i = 0; i < NCTX; ++i) { int j = (teardown_mode % 3) ? i : NCTX - 1 - i; if (ctx[j]) { LIB(kdump_free(ctx[j])); ctx[j] = NULL; } }
 		for (i = 0; i < NOBJ; ++i) if (obj[i].kind) drop_obj(i);
 		if (oom_lock_underflow != underflow_seen && !strchr(underflow_ops, 'Z'))
 			underflow_ops[strlen(underflow_ops)] = 'Z';
